@@ -156,6 +156,28 @@ func enqueueableShape(prog *Program, pkgPath string) []*lemmaQuery {
 	}
 }
 
+// scheduleSweepShape (C10, C17): the sweep that reads due schedules takes them oldest pending occurrence first
+// (ORDER BY next_run_time ASC before anything else), so that under a batch limit no due schedule is passed over
+// for ever by schedules created before it.
+func scheduleSweepShape(prog *Program, pkgPath string) []*lemmaQuery {
+	const constName = "SCHEDULE_SELECT_ALL_STATEMENT"
+	where := strings.TrimPrefix(pkgPath, repoModule+"/") + ":" + constName
+	text, ok := prog.constString(pkgPath, constName)
+	if !ok {
+		return []*lemmaQuery{structural("statement "+constName+" exists", where, false, "constant not found")}
+	}
+	stmts, err := ParseSQL(text)
+	if err != nil || len(stmts) != 1 || stmts[0].Select == nil {
+		return []*lemmaQuery{structural(constName+" is a SELECT of the verified SQL subset", where, false, fmt.Sprint(err))}
+	}
+	sel := stmts[0].Select
+	orderOK := len(sel.OrderBy) >= 1 && sel.OrderBy[0].Col.Name == "next_run_time" && !sel.OrderBy[0].Desc
+	return []*lemmaQuery{
+		structural(constName+": due schedules are read oldest pending occurrence first (ORDER BY next_run_time ASC, ...)", where, orderOK, text),
+		structural(constName+": the batch size is a bound parameter (LIMIT ?)", where, sel.Limit != nil && isParam(sel.Limit), text),
+	}
+}
+
 // derivedIdLemmas (C05): the ids the server derives for registrations must be injective in the client ids
 // they are built from, otherwise two different registrations share one row. The format literal is read
 // from the current source of the deriving function; the query is pure string theory.
@@ -347,6 +369,11 @@ func extraObligations(prog *Program, prop, tier string) []*lemmaQuery {
 		// ... and on the data still being there after a graceful stop with the default configuration
 		if prop != "C16" && prop != "C17" {
 			out0 = append(out0, resetDefaultLemmas(prog)...)
+		}
+	}
+	if prop == "C10" || prop == "C17" {
+		for _, be := range []string{"sqlite", "postgres"} {
+			out0 = append(out0, scheduleSweepShape(prog, repoModule+"/internal/app/subsystems/aio/store/"+be)...)
 		}
 	}
 	if prop == "C08" || prop == "C17" {
